@@ -3,6 +3,26 @@ _T = 'bounded symbolic execution of the real code (CrossHair + z3), solver verdi
 _NOTE = ('trusted: CPython, CrossHair 0.0.110 models of int/list/dict, z3 5.1, shims S1/S2 (lemmas L1/L2), the fakes '
          'in /verif/vlib; bounds per obligation are in the evidence file')
 CHECKS = {
+    'C01': dict(
+        text='Bounded symbolic execution of the real upload/copy code path end to end (<= 3 parts; size, threshold, '
+             'chunk size, stream offset, body read sizes symbolic) plus unbounded inductive steps for ReadFileChunk and '
+             'the non-seekable read kernel; every input inside the bounds is decided by z3.',
+        note=_NOTE + '; A3 botocore body protocol; identity-content data', technique=_T),
+    'C02': dict(
+        text='Bounded symbolic execution of the real download path end to end for all four destination kinds (<= 3 '
+             'parts, <= 3 chunks per attempt, <= 2 retryable stream faults at symbolic byte positions, symbolic short '
+             'reads) and of GetObjectTask alone.',
+        note=_NOTE + '; identity-content data; legacy ranged download and process-pool facade need real threads/'
+             'processes and are outside', technique=_T),
+    'C12': dict(
+        text='Inductive step on the real SlidingWindowSemaphore from an arbitrary invariant-satisfying state (unbounded '
+             'counters) against a reference model, bounded API histories, TaskSemaphore conservation, quiescence of '
+             'manager semaphores after e2e transfers.',
+        note=_NOTE + '; representation invariant stated in harness/c12.py', technique=_T),
+    'C16': dict(
+        text='The real DeferQueue driven with delivery histories exactly as quantified (parts, attempts cut anywhere, '
+             'interleavings) with unbounded symbolic lengths, plus a one-step obligation from an arbitrary queue state.',
+        note=_NOTE, technique=_T),
     'C14': dict(
         text='Planning kernels confirmed over all paths at real scale (size <= 5 TiB, chunk <= 8 GiB, symbolic part '
              'index): every input in the stated domain is covered by the solver, not sampled. Bounded claim: the '
